@@ -544,11 +544,28 @@ fn mixed_run(seed: u64, run: u64, k: u64) -> RunOutcome {
     let mut rng = Prng::new(report::run_seed(seed, "C15mixed", run));
     // starts with either variant; 512 keygens are cheap, so there are more of them
     let mut seq: Vec<(usize, [u8; 32])> = Vec::new();
-    if k % 2 == 1 {
+    let rare = crate::props::c05::pinned();
+    if k % 4 == 2 && rare.len() >= 4 {
+        // seeds whose key generation takes a rare branch (a solved candidate discarded because F or G
+        // does not fit eight bits; pinned in corpus/C05/seeds.txt), several of them in one process:
+        // whatever the first occurrence of a rare event leaves behind must not change the second
+        let n = if k % 8 == 6 { 1024 } else { 512 };
+        let of_n: Vec<u64> = rare.iter().filter(|(m, _)| *m == n).map(|(_, c)| *c).collect();
+        for i in 0..4.min(of_n.len()) {
+            let c = of_n[(k as usize / 4 + i * 3) % of_n.len()];
+            seq.push((n, crate::rng::counter_seed(c)));
+        }
+        if seq.len() < 2 {
+            seq.clear();
+        }
+    }
+    if !seq.is_empty() {
+        // (rare-branch sequence chosen above)
+    } else if k % 4 == 1 {
         // related seeds on one thread: a base seed, single-bit neighbours in different bytes, seeds that
         // share the base's first or last bytes, and the base again - anything remembered under a part of
         // a seed (a truncated key, a prefix, a hash of some bytes) is then found by a different seed
-        let n = if k % 8 == 7 { 1024 } else { 512 };
+        let n = if k % 8 == 5 { 1024 } else { 512 };
         let base = rng.seed32();
         seq.push((n, base));
         for bit in [100i64, 64, 255, 7] {
@@ -589,7 +606,7 @@ fn mixed_run(seed: u64, run: u64, k: u64) -> RunOutcome {
         let mut trials = 0;
         'search: for i in 0..seq.len() {
             for j in 0..seq.len() {
-                if i != j && (seq[i].0 != seq[j].0 || (k % 2 == 1 && i < j)) {
+                if i != j && (seq[i].0 != seq[j].0 || ((k % 4 == 1 || k % 4 == 2) && i < j)) {
                     let cand = vec![seq[i], seq[j]];
                     let r = crate::isolate::isolated(|| mixed_sequence(&cand).0.map(|c| c.0).unwrap_or_default().into_bytes(), crate::isolate::run_timeout_s());
                     trials += 1;
@@ -738,6 +755,68 @@ fn replay_long_history(doc: &Value) -> Option<String> {
     }
 }
 
+/// `PublicKey::from_secret_key` is the second half of `keygen`: the public key is a function of the
+/// secret key alone. One secret key per variant, the derivation repeated many times over several
+/// processes; every result must be the same bytes.
+fn derivation_repeats(seed: u64, per_proc: usize, w: usize) -> RunOutcome {
+    let mut rng = Prng::new(report::run_seed(seed, "C15derive", 0));
+    let (s512, s1024) = (rng.seed32(), rng.seed32());
+    let items: Vec<u64> = (0..16).collect();
+    let job = |i: u64| -> Vec<u8> {
+        fn go<V: Variant>(sd: [u8; 32], reps: usize) -> Vec<u8> {
+            let (sk, pk) = match world::keygen_sim::<V>(sd, None, None).0 {
+                Ok(k) => k,
+                Err(_) => return vec![2],
+            };
+            let want = V::pk_to_bytes(&pk);
+            for r in 0..reps {
+                let again = crate::guard::guarded(|| V::pk_to_bytes(&V::pk_from_sk(&sk)));
+                match again {
+                    Ok(b) if b == want => {}
+                    _ => {
+                        let mut v = vec![1];
+                        v.extend_from_slice(&(r as u64).to_le_bytes());
+                        return v;
+                    }
+                }
+            }
+            vec![0]
+        }
+        if i % 4 == 3 {
+            go::<V1024>(s1024, per_proc / 4)
+        } else {
+            go::<V512>(s512, per_proc)
+        }
+    };
+    let raw = crate::isolate::fork_map(&items, w, None, &job);
+    let mut out = RunOutcome::default();
+    out.stats.inc("runs");
+    out.stats.inc("runs.public_key_derivation_repeats");
+    for i in &items {
+        let n = if i % 4 == 3 { 1024 } else { 512 };
+        let reps = if n == 1024 { per_proc / 4 } else { per_proc };
+        match raw.get(i) {
+            Some(Ok(b)) if b.first() == Some(&0) => {
+                out.stats.evaluations += reps as u64;
+                out.stats.add("public_key_derivations", reps as u64);
+            }
+            Some(Ok(b)) if b.first() == Some(&1) => {
+                let sd = if n == 512 { s512 } else { s1024 };
+                out.violations.push(Violation {
+                    property: PROP,
+                    class: format!("keygen{} returned different key pairs for the same seed", n),
+                    detail: format!("seed {}: PublicKey::from_secret_key on the secret key of that seed gave different public keys in repetitions of the derivation (process {}, repetition {})", hex(&sd), i, u64::from_le_bytes(b[1..9].try_into().unwrap_or([0; 8]))),
+                    replay: json!({"kind": "derive", "probabilistic": true, "n": n, "seed_hex": hex(&sd), "reps": reps}),
+                    run: (1 << 41) + 40 + i,
+                });
+                break;
+            }
+            _ => {}
+        }
+    }
+    out
+}
+
 /// pinned seeds whose key generation takes a rare branch (many attempts, a range rejection):
 /// "<n> <counter>" lines in corpus/C15/hard-seeds.txt; each is generated three times in fresh processes
 pub fn pinned_hard() -> Vec<(usize, u64)> {
@@ -802,6 +881,25 @@ pub fn replay(doc: &Value) -> Option<String> {
             }
         }
         "long-history" => replay_long_history(doc),
+        "derive" => {
+            let n = doc.get("n")?.as_u64()? as usize;
+            let sd: [u8; 32] = unhex(doc.get("seed_hex")?.as_str()?)?.try_into().ok()?;
+            let reps = doc.get("reps")?.as_u64()? as usize;
+            fn go<V: Variant>(sd: [u8; 32], reps: usize) -> bool {
+                let (sk, pk) = match world::keygen_sim::<V>(sd, None, None).0 {
+                    Ok(k) => k,
+                    Err(_) => return false,
+                };
+                let want = V::pk_to_bytes(&pk);
+                (0..reps * 4).any(|_| V::pk_to_bytes(&V::pk_from_sk(&sk)) != want)
+            }
+            let bad = if n == 512 { go::<V512>(sd, reps) } else { go::<V1024>(sd, reps) };
+            if bad {
+                Some(format!("keygen{} returned different key pairs for the same seed", n))
+            } else {
+                None
+            }
+        }
         "cross-build" => {
             let n = doc.get("n")?.as_u64()? as usize;
             let sd: [u8; 32] = unhex(doc.get("seed_hex")?.as_str()?)?.try_into().ok()?;
@@ -889,7 +987,7 @@ pub fn context(tier: Tier, seed: u64) -> Result<Ctx, String> {
     if p512.keys.is_empty() || p1024.keys.is_empty() {
         return Err("shared signing key could not be generated on the current tree".into());
     }
-    let mixed = if tier == Tier::Quick { 12 } else { 96 };
+    let mixed = if tier == Tier::Quick { 16 } else { 128 };
     Ok(Ctx { shared: [0u8; 32], p512, p1024, r512, s512, o512, r1024, s1024, o1024, nb512, nb1024, mixed })
 }
 
@@ -1029,6 +1127,12 @@ pub fn check(tier: Tier, seed: u64) -> i32 {
         let o = long_histories(seed, c512, c1024, w);
         rep.absorb(o);
     }
+    // the public half, derived again and again
+    {
+        let per = if tier == Tier::Quick { 12_000 } else { 200_000 };
+        let o = derivation_repeats(seed, per, w);
+        rep.absorb(o);
+    }
     for i in 0..ctx.nb512 {
         let mut r = Prng::new(report::run_seed(seed, "C15nb512", i as u64));
         let o = neighbourhood::<V512>(r.seed32(), w);
@@ -1039,7 +1143,7 @@ pub fn check(tier: Tier, seed: u64) -> i32 {
         let o = neighbourhood::<V1024>(r.seed32(), w);
         rep.absorb(o);
     }
-    rep.rule = "a case is one keygen(seed) call: (i) inside a seeded multi-thread plan where every seed occurs 2-3 times on the same or different baton-scheduled threads (pre-emption at the draws of keygen's seed-expanded stream and of concurrent sign calls), with or without a simulator stream installed behind the ambient seam, plus once in a fresh child process; (i'') for three seeds, in this build (optimised, debug assertions on) and in the instrumented build (unoptimised, debug assertions off); (i') the same in a deep batch (instrumented build: pre-emption at function entries, so also between two loads of shared state inside the sampler); (ii) in a sequence of keygens on one thread - mixed variants and unrelated seeds, or one variant and related seeds (a base seed, four single-bit neighbours, a seed sharing its first 24 bytes, one sharing its last 24 bytes, the base again) - each compared with a fresh process; (in both kinds of sequence every look the code takes at a clock may find that 61 s, 10 min or 2 h have passed - fault T2, through the harness's own clock_gettime; the reference generation runs on an undisturbed clock); (ii') in a long single-thread history (72 Falcon-512 / 34 Falcon-1024 pairs in quick, 400 / 160 in thorough) through SecretKey::generate_from_seed + PublicKey::from_secret_key with a sign call now and then, each pair compared with keygen(seed) in a fresh process; (iii) three times in fresh processes for five edge seeds per variant (all zero, all ones, a single 01 byte first or last, 55..55) and for the seeds that need the most ntru_gen attempts (adaptively chosen from the neighbourhoods, and pinned in corpus/C15/hard-seeds.txt); (iv) on one of the 256 single-bit neighbours of a sampled base seed (the neighbourhood of each sampled base seed is enumerated completely; base seeds are sampled). Non-trivial for (i): the call was pre-empted mid-call; for (ii): every neighbour. Distinct = distinct (schedule trace, thread, seed) resp. distinct key pairs".into();
+    rep.rule = "a case is one keygen(seed) call: (i) inside a seeded multi-thread plan where every seed occurs 2-3 times on the same or different baton-scheduled threads (pre-emption at the draws of keygen's seed-expanded stream and of concurrent sign calls), with or without a simulator stream installed behind the ambient seam, plus once in a fresh child process; (i'') for three seeds, in this build (optimised, debug assertions on) and in the instrumented build (unoptimised, debug assertions off); (i') the same in a deep batch (instrumented build: pre-emption at function entries, so also between two loads of shared state inside the sampler); (ii) in a sequence of keygens on one thread - mixed variants and unrelated seeds, or pinned seeds that take a rare branch of key generation, several in one process, or one variant and related seeds (a base seed, four single-bit neighbours, a seed sharing its first 24 bytes, one sharing its last 24 bytes, the base again) - each compared with a fresh process; (in both kinds of sequence every look the code takes at a clock may find that 61 s, 10 min or 2 h have passed - fault T2, through the harness's own clock_gettime; the reference generation runs on an undisturbed clock); (ii') in a long single-thread history (72 Falcon-512 / 34 Falcon-1024 pairs in quick, 400 / 160 in thorough) through SecretKey::generate_from_seed + PublicKey::from_secret_key with a sign call now and then, each pair compared with keygen(seed) in a fresh process; (ii'') the public half alone: PublicKey::from_secret_key repeated 156 000 times (thorough 2.6 million) on one secret key per variant over 16 processes; (iii) three times in fresh processes for five edge seeds per variant (all zero, all ones, a single 01 byte first or last, 55..55) and for the seeds that need the most ntru_gen attempts (adaptively chosen from the neighbourhoods, and pinned in corpus/C15/hard-seeds.txt); (iv) on one of the 256 single-bit neighbours of a sampled base seed (the neighbourhood of each sampled base seed is enumerated completely; base seeds are sampled). Non-trivial for (i): the call was pre-empted mid-call; for (ii): every neighbour. Distinct = distinct (schedule trace, thread, seed) resp. distinct key pairs".into();
     rep.assumptions = vec![
         "keygen is stopped after 3000 ntru_gen attempts' worth of draws (bounded liveness; a correct tree needs 13 resp. 24 attempts on average)".into(),
         "an ambient-entropy draw inside keygen is recorded as a probe, not an alarm; only differing key bytes are".into(),
